@@ -226,17 +226,18 @@ PROPS["C03"] = {
                   "operation sequence of Buffer.step: C03_conserved (each accepted / recovered chunk is exactly one of queued, in "
                   "hand, in the window, held by the consumer, confirmed, counted dropped, kept as a file), C03_shutdown_accounted "
                   "(after destroy nothing is queued: held / confirmed / dropped / kept, each once), C03_fifo and "
-                  "C03_taken_in_order (consumer order is a subsequence of recovered-in-name-order ++ acceptance order), "
+                  "C03_taken_in_order (consumer order is a subsequence of recovered-in-name-order ++ acceptance order), C03_delivered_unchanged "
+                  "and C03_files_hold_accepted_bytes (what the consumer receives, and every file of an accepted id, is byte for byte what was "
+                  "accepted or recovered), "
                   "C03_window_bound, C03_recovered_first. Tie: state-by-state correspondence of the real buffer with the model at "
                   "every quiescent point (counters, gauges, window, hand, file contents) and seven regenerated source facts "
                   "(non-blocking select in Accept, spill rule, recovery before feeder start, channel capacities, quota test before "
                   "the write, checked hand-back, save order at shutdown).",
     "level_note": "Trusted: Lean kernel + 3 standard axioms; sampled correspondence at quiescent points (between them the real "
-                  "goroutines interleave; the harness does not explore those schedules). PARTIAL: byte identity of delivered / "
-                  "kept chunks, the space bound and the memory bound at quiescent points are decided by the correspondence and the "
+                  "goroutines interleave; the harness does not explore those schedules). PARTIAL: the space bound and the memory bound at quiescent points are decided by the correspondence and the "
                   "harness oracle, not yet by theorems; chunks saved concurrently by consumer hand-backs and the feeder at "
                   "shutdown are serialised by the harness.",
-    "partial": "byte-identity, space-bound and memory-bound clauses not yet theorems; shutdown concurrency serialised",
+    "partial": "space-bound and memory-bound clauses not yet theorems; shutdown concurrency serialised",
     "assumptions": ["chunk ids are never reused (C11_ids_increasing) and nobody else writes to the queue directory",
                     "file operations are atomic at this level (step-level disk model: C04)"],
 }
